@@ -826,7 +826,7 @@ def st_formparameter(case, rec, rng, s):
     seq = []
     for _i in range(case["length"]):
         if rng.random() < 0.25:
-            member, mval = rng.choice([("label", "new"), ("label", 7), ("enabled", False), ("enabled", "no"), ("dependency_type", "disabled"), ("dependency_type", "never"), ("tooltip", "t"), ("tooltip", 3)])
+            member, mval = rng.choice([("label", "new"), ("label", 7), ("enabled", False), ("enabled", "no"), ("dependency_type", "disabled"), ("dependency_type", "never"), ("tooltip", "t"), ("tooltip", 3), ("group_optional", True), ("group_optional", True), ("group", "g"), ("optional", True)])
             seq.append((member, repr(mval)))
             fresh = make()
             fv = verdict(lambda: fresh.register({member: mval}))
@@ -852,6 +852,22 @@ def st_formparameter(case, rec, rng, s):
         compare_verdicts(rec, type(long_).__name__, "value", f"value={val!r} after {len(seq) - 1} earlier assignments", lv, fv)
         if lv[0] == "reject":
             rec.check("C15.rejected-mutates", canon(long_.form()) == before, op="FormParameter.value", cls=type(long_).__name__, attr="value", detail=f"rejected {val!r} changed the form: {short(before)} -> {short(canon(long_.form()))}")
+    # the form as a whole: the object that went through the sequence and one built in a single call from the same members
+    form = dict(long_.form())
+    try:
+        kw = dict(form)
+        args = [kw.pop("choice_list")] if "choice_list" in kw and isinstance(long_, F.ChoiceStringFormParameter) else ([kw.pop("mesh_type", [str(type(s["A"]).default_type_uid())])] if isinstance(long_, F.ObjectFormParameter) else [])
+        twin = type(long_)("p", *args, **kw)
+        same_form = canon(twin.form()) == canon(form)
+    except Exception as exc:  # noqa: BLE001
+        if not exc_origin(exc)[0]:
+            raise
+        twin, same_form = None, False
+        rec.see("form-twins-refused:" + type(exc).__name__)
+    if twin is not None and same_form:
+        lv, fv = verdict(long_.validate), verdict(twin.validate)
+        rec.see("form-twins-compared")
+        compare_verdicts(rec, type(long_).__name__, "validate", f"validate() of the form {short(canon(form), 160)} after {len(seq)} earlier calls", lv, fv)
     rec.sample = {"target": type(long_).__name__, "sequence": seq[:10]}
 
 
